@@ -97,6 +97,10 @@ ORDER_CASES = [
     'write(gi == gi - zero_i()); write(gi);',
     'write(("ab"[bump_i() - 1] is int) + gi);',
     'write(lenof(gs) + set_s()); write(gs.length);',
+    # element stores whose index is a bare mutable global that the right-hand side changes (index first, then the value)
+    'byte[] ln = [\'a\', \'b\', \'c\', \'d\', \'e\', \'f\', \'g\', \'h\', \'i\']; gi = 1; ln[gi] = (bump_i() + 64) is byte; write(ln); ln[gi] += bump_i() is byte; write(ln); write(gi);',
+    'int[] li = [1, 2, 3, 4, 5, 6, 7, 8, 9]; gi = 0; li[gi] = bump_i() * 7; li[gi] += bump_i(); li[gi] = gi + bump_i(); write(li[0]); write(li[1]); write(li[2]); write(li[3]); gi = 5; GA[gi - 5] = bump_i(); write(GA[0]); write(GA[1]);',
+    'bool[] lo = [false, false, false, false, false, false, false, false, false, false]; gi = 2; lo[gi] = bump_i() == 1; gb = 3; lo[gb] = bump_b() == 1; for (int q = 0; q < 10; q += 1) { write(lo[q] is int); } string[] ls2 = ["a", "b", "c", "d", "e", "f", "g", "h"]; gi = 1; ls2[gi] = pick_s(bump_i()); write(ls2[1]); write(ls2[2]);',
     # computed left operand (lives in a register), right operand is the .length of something that needs registers
     'write(gi * 2 - GSS[1].length); write(gi + 1 < GSS[0].length); write(gi + 1 - pick_s(1).length); write((gi + 1) * pick_s(0).length);',
     'string[] ls = ["x", "yyy"]; int k = 1; write(gi * 3 + ls[k].length); write((gb + 1) * ls[k - 1].length); write(gi - 1 == GSS[gi - 4].length + 4);',
@@ -128,6 +132,7 @@ CAST_PROG = '''byte gb = 200; int gi = 300;
 int id(int v) { return v; }
 empty @is_you(int a, int b) {
   int[] arr = [a, b, 7];
+  byte bq[256]; int iq[256]; bool oq[256];
 %s
 }'''
 CAST_EXPRS = ['(a + b)', '(a * 3)', '(a - b)', 'id(a)', 'arr[0]', '(arr[1] + 1)', '(gi + a)', '(-a)', '(a / 2)', '(gb + a)', '(arr.length * a)']
@@ -143,13 +148,16 @@ def computed_casts(seed, tier):
         stmts.append('  write(arr[(%s is byte) %% 3]); write(\',\');' % e)
         stmts.append('  if ((%s is byte) > 127) { write(\'H\'); } else { write(\'L\'); }' % e)
         stmts.append('  { byte t = %s is byte; write(t is int); } write((%s is bool) is int); write(((%s is byte) is bool) is int); writeln();' % (e, e, e))
-    per = 12
+        # a narrowed value as an index (every byte value is a valid index of a 256-element array) and as a truth value
+        stmts.append('  bq[%s is byte] = \'X\'; write(bq[%s is byte]); bq[%s is byte] += 1; write(bq[%s is byte]); iq[%s is byte] = 7; iq[%s is byte] *= 6; write(iq[%s is byte]); oq[%s is byte] = true; write(oq[%s is byte]); write(\',\');' % ((e,) * 9))
+        stmts.append('  if (%s is byte) { write(\'T\'); } else { write(\'F\'); } if (not (%s is byte)) { write(\'t\'); } else { write(\'f\'); } int n = 0; while ((%s is byte) and n < 2) { n += 1; } write(n); if ((%s is byte) or b == 1) { write(\'o\'); } try { !truth_is_defeat((%s is byte) is bool); write(\'n\'); } undo { write(\'u\'); } try { !truth_is_defeat(not (%s is byte)); write(\'N\'); } stop { write(\'S\'); }' % ((e,) * 6))
+    per = 8
     grid = [(0, 0), (1, 255), (255, 1), (256, 256), (300, -1), (-1, 300), (-256, 44), (127, 128), (32767, 1), (-32768, -1), (1000, 999)]
     for i in range(0, len(stmts), per):
         src = CAST_PROG % '\n'.join(stmts[i:i + per])
         for w in ([2, 3] if tier == 'quick' else [2, 3, 4, 8]):
             for a, b in (grid[:6] if tier == 'quick' else grid):
-                items.append(runner.Item(('ccast', i, a, b, w), src, [str(a), str(b)], w=w, s=160,
+                items.append(runner.Item(('ccast', i, a, b, w), src, [str(a), str(b)], w=w, s=700,
                                          meta={'family': 'computed_casts', 'classifier': {'seq': 'computed_casts'}}))
     return items
 
@@ -279,6 +287,49 @@ empty @is_you(int k, const int[] ev) { byte[] eb = ['m', (k is byte)]; int[] ml 
 int first(const int[] a) { return a[0]; }
 empty @is_you(int n) { int[] a = [n, 2, 3]; int[] b = a; b[0] = 10; write(a[0]); inc(a); write(b[0]); write(first(b)); const int[] c = [7, 8]; write(first(c)); bool[] f = [true, false]; bool[] h = f; h[1] = true; write(f[1]);
   byte[] q = ['a', 'b']; byte[] r = q; r[0] += 1; write(q); int[] d = a; inc(d); inc(b); write(a[2]); }''', [['1'], ['-5']]),
+]
+
+MISC += [
+    # by-value scalars: a const (or plain) copy of a local/parameter/global keeps its value when the source changes
+    ('value_copies', '''int g = 4; byte gb = 9;
+int gcd(int a, int b) { while (b != 0) { const int t = b; b = a % b; a = t; } return a; }
+int swap_sum(int x, int y) { const int ox = x; const int oy = y; x = oy; y = ox; return x * 100 + y + ox * 10000; }
+empty @is_you(int a, int b) {
+  write(gcd(a, b)); write(' '); write(swap_sum(a % 10, b % 10)); write(' ');
+  const int c = a; int d = a; const byte cb = gb; const int cg = g; const bool ct = a > b; bool t = a > b;
+  a += 1; gb += 1; g = 50; t = not t; write(c); write(d); write(a); write(cb is int); write(cg); write(ct); write(' ');
+  for (int i = 0; i < 3; i += 1) { const int before = i; const int ca = a; a += i; write(before); write(ca); write(a); write(','); }
+  const string s = "ab"; string m = s; m = "xyz"; write(s); write(m); int[] arr = [a, b]; const int e0 = arr[0]; arr[0] = 77; write(e0); write(arr[0]);
+}''', [['48', '18'], ['7', '3'], ['0', '5']]),
+    # every evaluation of an array literal makes a fresh array, whatever its elements
+    ('fresh_literals', '''int next(int x) { int[] st = [30, 0, 0]; st[0] += x; st[1] += 1; return st[0] + st[1]; }
+byte tag(int k) { byte[] t = ['a', 'b']; t[0] += (k is byte); return t[0]; }
+bool flip(int k) { bool[] f = [false, true, false, false, false, false, false, false, true]; f[0] = not f[0]; f[8] = k > 1; return f[0] == f[8]; }
+empty @is_you(int n) {
+  for (int i = 1; i <= n; i += 1) { write(next(i)); write(' '); write(tag(i)); write(flip(i)); write(' ');
+    int[] loc = [1, 2, 3]; loc[i % 3] += 10 * i; write(loc[0] + loc[1] + loc[2]); string[] ss = ["p", "q"]; ss[0] = "zz"; write(ss[0]); write(ss[1]); write(','); }
+  int k = 0; while (k < 2) { k += 1; int[] z = [0, 0, 0, 0]; z[k] = k; write(z[0] + z[1] + z[2] + z[3]); int[] w = [n, 0, 0]; w[1] += k; write(w[1]); write(w[2]); }
+}''', [['3'], ['1'], ['5']]),
+    # array literals with literal zeros built over stack memory that held other data before
+    ('zeros_over_used_stack', '''int fill(int x) { int[] junk = [x, x + 1, x + 2, x + 3, x + 4, x + 5]; return junk[5]; }
+empty @is_you(int x) {
+  write(fill(x)); write(' ');
+  for (int i = 0; i < 2; i += 1) { { int[] a = [9, 9, 9, 9, x + 9]; write(a[4]); } { int[] b = [x, 0, 0, 0, 0]; write(b[0] + b[1] + b[2] + b[3] + b[4]); write(' '); byte[] c = [(x is byte), 0, 0]; write(c[1] is int); write(c[2] is int); bool[] d = [x > 0, false, false, false, false, false, false, false, false, false]; write(d[1]); write(d[9]); } }
+  { byte q[6]; for (int k = 0; k < 6; k += 1) { q[k] = 255; } } int[] e = [0, x, 0]; write(e[0]); write(e[2]); string[] s = [""]; write(s[0].length);
+}''', [['5'], ['0'], ['-3']]),
+]
+
+MISC += [
+    # dynamic array lengths from every kind of expression (call returning a global / constant / parameter, element, length,
+    # arithmetic), each followed by further allocations that must not overlap
+    ('vla_length_sources', '''int g = 3; const int K = 2; int[] GA = [4, 1];
+int cnt() { return g; } int two() { return K; } int same(int v) { return v; } int glen() { return GA.length; }
+empty @is_you(int n) {
+  int a[cnt()]; int b[2]; for (int i = 0; i < a.length; i += 1) { a[i] = 10 + i; } b[0] = 7; b[1] = 8; write(a.length); write(a[2]); write(b[0]); write(b[1]); write(',');
+  byte c[two()]; byte d[same(n)]; c[0] = 'c'; c[1] = 'C'; for (int j = 0; j < d.length; j += 1) { d[j] = 'd'; } write(c); write(d); write(a[0]); write(',');
+  bool e[GA[0]]; int f[glen()]; int h[a.length - 1]; e[3] = true; f[1] = 5; h[0] = 6; h[1] = 9; write(e[3]); write(f[1]); write(h[0] + h[1]); write(b[1]); write(a[1]); write(',');
+  { string s[cnt() - 1]; s[0] = "x"; s[1] = "yz"; int t[K]; t[1] = 4; write(s[1]); write(t[1]); } int u[n]; int v[1]; v[0] = 3; if (n > 0) { u[n - 1] = 2; write(u[n - 1]); } write(v[0]);
+}''', [['3'], ['1'], ['0']]),
 ]
 
 
